@@ -1,6 +1,7 @@
 package main
 
 import (
+	"bytes"
 	"crypto/md5"
 	"encoding/base64"
 	"fmt"
@@ -49,6 +50,13 @@ func (g ggen) payload(max int) j.B {
 		n = g.pick(max + 1)
 	}
 	b := make([]byte, n)
+	if n >= 40 && g.chance(0.4) {
+		// highly compressible: a gzip-encoded request body is then much shorter than the object it carries
+		for i := range b {
+			b[i] = "abc"[i%3]
+		}
+		return b
+	}
 	for i := range b {
 		if g.chance(0.7) {
 			b[i] = byte('a' + g.pick(26))
@@ -130,6 +138,9 @@ func (g ggen) meta() []gcs.KVB {
 
 func (g ggen) upload(b, n j.B, pc float64) gcs.Op {
 	op := gcs.Op{Ev: "Upload", B: b, N: n, Content: g.payload(300), Decl: "none", Conds: g.conds(pc), Gzip: g.chance(0.15)}
+	if op.Gzip && g.chance(0.6) {
+		op.Content = j.B(bytes.Repeat([]byte("compressible "), 10+g.pick(20))) // the compressed body is far shorter than the object
+	}
 	if g.chance(0.5) {
 		op.Proto = "media"
 		op.Attrs = g.attrs(true)
@@ -304,6 +315,10 @@ func genGcsProgram(r *rand.Rand, p gcsProfile) []gcs.Op {
 					s.Gm = gcs.Cond{K: "val", Sym: []string{"cur", "other"}[g.pick(2)]}
 				}
 				op.Srcs = append(op.Srcs, s)
+			}
+			if len(op.Srcs) > 0 && g.chance(0.25) {
+				// the same source once more, this time conditioned (on its current or on another generation)
+				op.Srcs = append(op.Srcs, gcs.Src{N: op.Srcs[0].N, Gm: gcs.Cond{K: "val", Sym: []string{"other", "cur", "other"}[g.pick(3)]}})
 			}
 			prog = append(prog, op)
 		case x < p.wUpload+p.wResum+p.wPatch+p.wDelete+p.wRead+p.wCompose+p.wCopy:
